@@ -139,7 +139,15 @@ func (g *Gen) Expr(d int) string {
 		n := g.R.Intn(3)
 		var kv []string
 		for i := 0; i < n; i++ {
-			kv = append(kv, g.pick([]string{g.pick(genStrings), g.pick(genInts), g.Ident()})+":"+g.Expr(d-1))
+			key := g.pick([]string{g.pick(genStrings), g.pick(genInts), g.Ident()})
+			if g.R.Pct(30) { // a parenthesised operator expression as key: operators looser than, equal to and tighter than `:`
+				key = "(" + g.Leaf() + " " + g.pick([]string{"&&", "||", ":", "==", "+", "<", "=", "*"}) + " " + g.Leaf() + ")"
+			}
+			val := g.Expr(d - 1)
+			if g.R.Pct(20) {
+				val = "(" + g.Leaf() + " " + g.pick([]string{"&&", "||", ":", "==", "+"}) + " " + g.Leaf() + ")"
+			}
+			kv = append(kv, key+":"+val)
 		}
 		return "{" + strings.Join(kv, ",") + "}"
 	case k < 21: // lambda forms
